@@ -996,6 +996,10 @@ def observe(hs):
                 c2 = fn_(inst)
                 if type(c2) is not new:
                     ld.append(nm + ":type")
+                for f in list(inherited_names(hs)) + list(hs["fields"]):     # every field survives, whatever its name
+                    if getattr(c2, f, MISSING) != getattr(inst, f, MISSING):
+                        ld.append(nm + ":field")
+                        break
             except BaseException as e:  # noqa: BLE001
                 ld.append(nm + ":" + common.exc_kind(e))
     obs["lookupDiff"] = ld
